@@ -12,13 +12,13 @@ git -C /repo worktree add -q --detach $WT HEAD || exit 1
 res() { echo "$1" | tee -a $OUT/confirm.log; }
 : > $OUT/confirm.log
 cp $SRC/$(basename $SRC/demo_test.go) $WT/$DEST 2>/dev/null || cp $SRC/demo_test.go $WT/$DEST
-( cd $WT && go test $PKG -run "$PAT" -count=1 >$OUT/demo_without.txt 2>&1 ); r0=$?
+( cd $WT && go test $TAGS $PKG -run "$PAT" -count=1 >$OUT/demo_without.txt 2>&1 ); r0=$?
 res "demo without patch: exit $r0 (expect 0)"
 ( cd $WT && git apply $OUT/patch.diff 2>$OUT/apply.txt ); ra=$?
 res "patch applies to current /repo HEAD: exit $ra"
 ( cd $WT && go build ./... >$OUT/build.txt 2>&1 ); rb=$?
 res "go build ./... with patch: exit $rb"
-( cd $WT && go test $PKG -run "$PAT" -count=1 >$OUT/demo_with.txt 2>&1 ); r1=$?
+( cd $WT && go test $TAGS $PKG -run "$PAT" -count=1 >$OUT/demo_with.txt 2>&1 ); r1=$?
 res "demo with patch: exit $r1 (expect non-zero)"
 rm -f $WT/$DEST
 ( cd $WT && go test $PKG -count=1 2>&1 | grep -E "^(ok|FAIL|---)" >$OUT/pkgtests_with.txt ); 
